@@ -400,3 +400,189 @@ Proof.
         change maxu64 with 18446744073709551615 in U. lia. }
       rewrite E. reflexivity.
 Qed.
+
+(* ------------------------------------------------------------------ strings and booleans *)
+
+Lemma bytes_compare_eq a b : bytes_compare a b = Eq <-> a = b.
+Proof.
+  revert b. induction a as [|x a IH]; intros [|y b]; cbn; split; intros H; try reflexivity; try discriminate.
+  - destruct (N.compare_spec x y); try discriminate. subst. f_equal. apply IH. exact H.
+  - inversion H; subst. rewrite N.compare_refl. apply IH. reflexivity.
+Qed.
+
+Lemma bytes_compare_antisym a b : bytes_compare b a = CompOpp (bytes_compare a b).
+Proof.
+  revert b. induction a as [|x a IH]; intros [|y b]; cbn; try reflexivity.
+  rewrite (N.compare_antisym x y). destruct (N.compare x y); cbn; [apply IH|reflexivity|reflexivity].
+Qed.
+
+(* lexicographic order on byte strings: the first differing byte decides, a proper prefix is smaller *)
+Inductive lex_lt : list N -> list N -> Prop :=
+| lex_nil y b : lex_lt [] (y :: b)
+| lex_head x y a b : (x < y)%N -> lex_lt (x :: a) (y :: b)
+| lex_tail x a b : lex_lt a b -> lex_lt (x :: a) (x :: b).
+
+Lemma bytes_compare_lt a b : bytes_compare a b = Lt <-> lex_lt a b.
+Proof.
+  revert b. induction a as [|x a IH]; intros [|y b]; cbn; split; intros H; try discriminate; try (inversion H; fail).
+  - constructor.
+  - reflexivity.
+  - destruct (N.compare_spec x y); try discriminate; [subst; apply lex_tail, IH, H|apply lex_head; assumption].
+  - inversion H; subst.
+    + apply N.compare_lt_iff in H1. rewrite H1. reflexivity.
+    + rewrite N.compare_refl. apply IH. assumption.
+Qed.
+
+Theorem str_ops a b :
+  binary_op OAdd (Str a) (Str b) = Ok (Str (a ++ b)) /\
+  (binary_op OEq (Str a) (Str b) = Ok (Bool true) <-> a = b) /\
+  (binary_op OLt (Str a) (Str b) = Ok (Bool true) <-> lex_lt a b) /\
+  (binary_op OGt (Str a) (Str b) = Ok (Bool true) <-> lex_lt b a) /\
+  binary_op ONe (Str a) (Str b) = Ok (Bool (negb (cmp_result OEq (bytes_compare a b)))) /\
+  binary_op OLe (Str a) (Str b) = Ok (Bool (negb (cmp_result OGt (bytes_compare a b)))) /\
+  binary_op OGe (Str a) (Str b) = Ok (Bool (negb (cmp_result OLt (bytes_compare a b)))).
+Proof.
+  cbn [binary_op]. split; [reflexivity|]. split; [|split; [|split]].
+  - rewrite <- bytes_compare_eq. destruct (bytes_compare a b); cbn; split; intros H; congruence.
+  - rewrite <- bytes_compare_lt. destruct (bytes_compare a b); cbn; split; intros H; congruence.
+  - rewrite <- bytes_compare_lt, (bytes_compare_antisym a b). destruct (bytes_compare a b); cbn; split; intros H; congruence.
+  - repeat split; destruct (bytes_compare a b); reflexivity.
+Qed.
+
+Theorem bool_ops a b :
+  binary_op OAnd (Bool a) (Bool b) = Ok (Bool (a && b)) /\
+  binary_op OOr (Bool a) (Bool b) = Ok (Bool (a || b)) /\
+  binary_op OEq (Bool a) (Bool b) = Ok (Bool (Bool.eqb a b)) /\
+  binary_op ONe (Bool a) (Bool b) = Ok (Bool (xorb a b)) /\
+  unary_op ONot None (Bool a) = Ok (Bool (negb a)).
+Proof. destruct a, b; repeat split; reflexivity. Qed.
+
+(* ------------------------------------------------------------------ float64 shortcuts *)
+
+(* the value of a float as a rational *)
+Definition flQ (f : fl) : Q := (inject_Z (fl_m f) * (2 # 1) ^ fl_e f)%Q.
+
+Lemma flQ_zero f : fl_is_zero f = true -> (flQ f == 0)%Q.
+Proof. destruct f; [|discriminate]. intros _. unfold flQ. cbn. reflexivity. Qed.
+
+Lemma flQ_one f : fl_is_one f = true -> (flQ f == 1)%Q.
+Proof.
+  destruct f as [|n m e]; [discriminate|]. destruct n; [discriminate|].
+  destruct m; try discriminate. destruct e; try discriminate. intros _. reflexivity.
+Qed.
+
+(* the shortcuts of float64Const (x+0, 0+x, x-0, x*0, x*1, 1*x, x/1) return the exact result *)
+Theorem f64_shortcuts x y :
+  (fl_is_zero y = true -> exists r, bin_f64 OAdd x y = Ok (Num (F64 r)) /\ (flQ r == flQ x + flQ y)%Q) /\
+  (fl_is_zero x = true -> exists r, bin_f64 OAdd x y = Ok (Num (F64 r)) /\ (flQ r == flQ x + flQ y)%Q) /\
+  (fl_is_zero y = true -> exists r, bin_f64 OSub x y = Ok (Num (F64 r)) /\ (flQ r == flQ x - flQ y)%Q) /\
+  (fl_is_zero x || fl_is_zero y = true -> exists r, bin_f64 OMul x y = Ok (Num (F64 r)) /\ (flQ r == flQ x * flQ y)%Q) /\
+  (fl_is_one y = true -> exists r, bin_f64 OMul x y = Ok (Num (F64 r)) /\ (flQ r == flQ x * flQ y)%Q) /\
+  (fl_is_one x = true -> exists r, bin_f64 OMul x y = Ok (Num (F64 r)) /\ (flQ r == flQ x * flQ y)%Q) /\
+  (fl_is_one y = true -> exists r, bin_f64 ODiv x y = Ok (Num (F64 r)) /\ (flQ r == flQ x / flQ y)%Q) /\
+  (fl_is_zero y = true -> bin_f64 ODiv x y = Err EDiv0).
+Proof.
+  repeat split; intros H; unfold bin_f64.
+  - destruct (fl_is_zero x) eqn:Hx.
+    + exists y. split; [reflexivity|]. rewrite (flQ_zero x Hx). ring.
+    + rewrite H. exists x. split; [reflexivity|]. rewrite (flQ_zero y H). ring.
+  - rewrite H. exists y. split; [reflexivity|]. rewrite (flQ_zero x H). ring.
+  - rewrite H. exists x. split; [reflexivity|]. rewrite (flQ_zero y H). ring.
+  - rewrite H. exists (FZero false). split; [reflexivity|].
+    apply orb_true_iff in H. destruct H as [H|H]; rewrite (flQ_zero _ H); unfold flQ; cbn; ring.
+  - destruct (fl_is_zero x || fl_is_zero y) eqn:Hz.
+    + exists (FZero false). split; [reflexivity|]. rewrite (flQ_one y H).
+      apply orb_true_iff in Hz. destruct Hz as [Hz|Hz].
+      * rewrite (flQ_zero _ Hz). unfold flQ; cbn; ring.
+      * destruct y; discriminate.
+    + destruct (fl_is_one x) eqn:Hx.
+      * exists y. split; [reflexivity|]. rewrite (flQ_one x Hx). ring.
+      * rewrite H. exists x. split; [reflexivity|]. rewrite (flQ_one y H). ring.
+  - destruct (fl_is_zero x || fl_is_zero y) eqn:Hz.
+    + exists (FZero false). split; [reflexivity|]. rewrite (flQ_one x H).
+      apply orb_true_iff in Hz. destruct Hz as [Hz|Hz].
+      * destruct x; discriminate.
+      * rewrite (flQ_zero _ Hz). unfold flQ; cbn; ring.
+    + rewrite H. exists y. split; [reflexivity|]. rewrite (flQ_one x H). ring.
+  - assert (fl_is_zero y = false) by (destruct y as [|n m e]; [discriminate|reflexivity]).
+    rewrite H0, H. exists x. split; [reflexivity|]. rewrite (flQ_one y H). field.
+  - rewrite H. reflexivity.
+Qed.
+
+(* ------------------------------------------------------------------ complex arithmetic on integer parts *)
+
+Lemma part_ok o x y r : part o x y = Ok r -> bin_arith o x y = Ok (Num r).
+Proof.
+  unfold part, get_rc. destruct (bin_arith o x y) as [[r'| | |]| |]; intros H; try discriminate. inversion H. reflexivity.
+Qed.
+
+Ltac step_part H :=
+  match type of H with
+  | context [bind (part ?o ?x ?y) _] =>
+    let E := fresh "E" in let r := fresh "r" in
+    destruct (part o x y) as [r| |] eqn:E; cbn [bind] in H; try discriminate; apply part_ok in E
+  end.
+
+Section ComplexInt.
+  Variables a b c d : rc.
+  Variables va vb vc vd : Z.
+  Hypothesis Ia : rc_int a = Some va.
+  Hypothesis Ib : rc_int b = Some vb.
+  Hypothesis Ic : rc_int c = Some vc.
+  Hypothesis Id : rc_int d = Some vd.
+  Hypothesis Wa : wf_int a.
+  Hypothesis Wb : wf_int b.
+  Hypothesis Wc : wf_int c.
+  Hypothesis Wd : wf_int d.
+
+  (* (a+bi) + (c+di), (a+bi) - (c+di) *)
+  Theorem cplx_add_exact re im : bin_cplx OAdd a b c d = Ok (Cplx re im) ->
+    rc_int re = Some (va + vc) /\ rc_int im = Some (vb + vd).
+  Proof.
+    intros H. unfold bin_cplx in H. step_part H. step_part H. inversion H; subst.
+    split.
+    - exact (proj1 (int_arith_exact OAdd a c va vc re Ia Ic Wa Wc E _ eq_refl)).
+    - exact (proj1 (int_arith_exact OAdd b d vb vd im Ib Id Wb Wd E0 _ eq_refl)).
+  Qed.
+
+  Theorem cplx_sub_exact re im : bin_cplx OSub a b c d = Ok (Cplx re im) ->
+    rc_int re = Some (va - vc) /\ rc_int im = Some (vb - vd).
+  Proof.
+    intros H. unfold bin_cplx in H. step_part H. step_part H. inversion H; subst.
+    split.
+    - exact (proj1 (int_arith_exact OSub a c va vc re Ia Ic Wa Wc E _ eq_refl)).
+    - exact (proj1 (int_arith_exact OSub b d vb vd im Ib Id Wb Wd E0 _ eq_refl)).
+  Qed.
+
+  (* (a+bi)(c+di) = (ac - bd) + (bc + ad)i *)
+  Theorem cplx_mul_exact re im : bin_cplx OMul a b c d = Ok (Cplx re im) ->
+    rc_int re = Some (va * vc - vb * vd) /\ rc_int im = Some (vb * vc + va * vd).
+  Proof.
+    intros H. unfold bin_cplx in H.
+    step_part H. step_part H. step_part H. step_part H. step_part H. step_part H.
+    inversion H; subst.
+    destruct (int_arith_exact OMul a c va vc _ Ia Ic Wa Wc E _ eq_refl) as [V1 W1].
+    destruct (int_arith_exact OMul b d vb vd _ Ib Id Wb Wd E0 _ eq_refl) as [V2 W2].
+    destruct (int_arith_exact OMul b c vb vc _ Ib Ic Wb Wc E1 _ eq_refl) as [V3 W3].
+    destruct (int_arith_exact OMul a d va vd _ Ia Id Wa Wd E2 _ eq_refl) as [V4 W4].
+    split.
+    - exact (proj1 (int_arith_exact OSub _ _ _ _ re V1 V2 W1 W2 E3 _ eq_refl)).
+    - exact (proj1 (int_arith_exact OAdd _ _ _ _ im V3 V4 W3 W4 E4 _ eq_refl)).
+  Qed.
+End ComplexInt.
+
+(* the complex operations are not total below 512 bits: the products of the
+   parts may exceed 512 bits although the operands do not (the code ignores
+   the error and later dereferences a nil big.Int) *)
+Theorem cplx_mul_fault_witness :
+  exists x, Z.abs x < 2 ^ 512 /\ bin_cplx OMul (Big x) (I64 0) (Big x) (I64 0) = Fault.
+Proof. exists (2 ^ 511). split; [vm_compute; reflexivity|vm_compute; reflexivity]. Qed.
+
+Theorem cplx_div_fault_witness :
+  exists x, Z.abs x < 2 ^ 257 /\ bin_cplx ODiv (I64 0) (I64 1000) (Big x) (I64 0) = Fault.
+Proof. exists (2 ^ 256 + 1). split; vm_compute; reflexivity. Qed.
+
+(* float arithmetic is not exact beyond 512 bits: 2 + 2^-1074 is 2 *)
+Theorem bigf_add_rounds_witness :
+  exists x y, bin_f64 OAdd x y = Ok (Num (BigF x)) /\ fl_is_zero y = false.
+Proof. exists (FFin false 1 1), (FFin false 1 (-1074)). split; vm_compute; reflexivity. Qed.
